@@ -323,6 +323,26 @@ class Evaluator(object):
     def _normalise_block(stmts):
         """`X = []` followed by `for v in it: [if c:] X.append(elt)` is the list comprehension `X = [elt for v in it if c]`: both spellings get the same term.
         (only when the loop body is exactly that, has no else, and X is not read inside the loop)"""
+        # pass 1: `for i in range(len(xs)): x = xs[i]; ...` -> `for i, x in enumerate(xs): ...` (so that pass 2 sees one loop form)
+        pre = []
+        for a in stmts:
+            if isinstance(a, ast.For) and not a.orelse and isinstance(a.target, ast.Name) and a.body \
+                    and isinstance(a.iter, ast.Call) and isinstance(a.iter.func, ast.Name) and a.iter.func.id == 'range' and len(a.iter.args) == 1 \
+                    and isinstance(a.iter.args[0], ast.Call) and isinstance(a.iter.args[0].func, ast.Name) and a.iter.args[0].func.id == 'len' \
+                    and len(a.iter.args[0].args) == 1:
+                xs = a.iter.args[0].args[0]
+                first = a.body[0]
+                if isinstance(first, ast.Assign) and len(first.targets) == 1 and isinstance(first.targets[0], ast.Name) and isinstance(first.value, ast.Subscript) \
+                        and isinstance(first.value.slice, ast.Name) and first.value.slice.id == a.target.id and ast.dump(first.value.value) == ast.dump(xs) \
+                        and first.targets[0].id != a.target.id and len(a.body) > 1:
+                    new = ast.For(target=ast.Tuple(elts=[ast.Name(id=a.target.id, ctx=ast.Store()), ast.Name(id=first.targets[0].id, ctx=ast.Store())], ctx=ast.Store()),
+                                  iter=ast.Call(func=ast.Name(id='enumerate', ctx=ast.Load()), args=[xs], keywords=[]), body=a.body[1:], orelse=[])
+                    ast.copy_location(new, a)
+                    ast.fix_missing_locations(new)
+                    pre.append(new)
+                    continue
+            pre.append(a)
+        stmts = pre
         out = []
         i = 0
         while i < len(stmts):
@@ -406,6 +426,18 @@ class Evaluator(object):
                 if r is not None and not r[0]:
                     return [], ast.copy_location(ast.IfExp(test=first.test, body=first.body[0].value.args[0], orelse=r[1]), first)
                 return None
+            if isinstance(first, ast.If) and not first.orelse and len(first.body) == 1 and isinstance(first.body[0], ast.Assign) and len(first.body[0].targets) == 1 \
+                    and isinstance(first.body[0].targets[0], ast.Name) and first.body[0].targets[0].id != x and len(stmts) > 1:
+                # `if c: v = e` then the rest: v stands for (e if c else v) in what follows (used once there, so nothing is evaluated twice)
+                t = first.body[0].targets[0].id
+                r = red(stmts[1:])
+                if r is None:
+                    return None
+                uses = sum(1 for part in r[0] + [r[1]] for n in ast.walk(part) if isinstance(n, ast.Name) and n.id == t)
+                if uses != 1:
+                    return None
+                repl = ast.copy_location(ast.IfExp(test=first.test, body=first.body[0].value, orelse=ast.Name(id=t, ctx=ast.Load())), first)
+                return [subst(c, t, repl) for c in r[0]], subst(r[1], t, repl)
             if isinstance(first, ast.Assign) and len(first.targets) == 1 and isinstance(first.targets[0], ast.Name) and first.targets[0].id != x \
                     and not any(isinstance(n, (ast.Call, ast.Yield, ast.Await, ast.NamedExpr)) for n in ast.walk(first.value)):
                 # (only call-free right-hand sides are substituted: no evaluation is duplicated or re-ordered)
@@ -1064,6 +1096,9 @@ class Evaluator(object):
             e.loops = e.loops + tuple(g[0] for g in gens)
             st.events.append(e)
         elt = es[0] if len(es) == 1 else ('tuple', es)
+        # the identity comprehension [x for x in xs] is list(xs): one term for both spellings
+        if kind == 'list' and len(gens) == 1 and not gens[0][2] and elt == ('elem', gens[0][1], gens[0][0]):
+            return [(('call', ('name', 'list'), (gens[0][1],), ()), st)]
         return [(('comp', kind, elt, tuple(gens)), st)]
 
     def ex_ListComp(self, node, st):
@@ -1194,6 +1229,7 @@ class Evaluator(object):
             e2.update(env)
             env = e2
         st.env = env
+        base_events = len(st.events)
         self.emit(st, 'enter', call, fi.qualname, node=node)
         outs = sub.exec_block(fi.node.body, st)
         results = []
@@ -1209,7 +1245,7 @@ class Evaluator(object):
         if self.mode == 'join' and len(results) > 1:
             base = 0
             vals = mkphi([r for r, _ in results])
-            s = self.merge([s for _, s in results], len(st.events))
+            s = self.merge([s for _, s in results], base_events)
             results = [(vals, s)]
         for r, s in results:
             s.env = dict(saved_env)
